@@ -27,6 +27,14 @@
 (*           context` and imports from a template that has extra globals   *)
 (*           build a private module.                                       *)
 (*                                                                         *)
+(*   glob    a mutable object every render can reach (an environment       *)
+(*           global / the same object passed to every render: a dict or a  *)
+(*           list).  The runtime builds per-render objects FROM it         *)
+(*           (namespace(glob), dict(glob), glob|list: op Copy): these are  *)
+(*           copies, owned by the render (its counter starts at the shared *)
+(*           value); the shared object itself is never written by Inc.     *)
+(*           Mutant AliasCopy: the built object IS the shared one.         *)
+(*                                                                         *)
 (* C37_OutputsAsIfAlone: whenever a task finishes, its output equals what  *)
 (* the same task produces when it runs alone from the initial state.       *)
 (* Mutant switches (Placeholder, CacheCtx) describe two plausible wrong    *)
@@ -36,6 +44,7 @@ EXTENDS Naturals, Sequences, FiniteSets, TLC, Json, IOUtils
 
 CONSTANTS Placeholder,   \* mutant: _module is set to an empty module before the body is awaited
           CacheCtx,      \* mutant: a module rendered with importer-specific globals is cached too
+          AliasCopy,     \* mutant: an object built from a shared mutable object aliases it instead of copying
           MaxObj         \* bound on template objects created per behaviour
 
 Sets == JsonDeserialize(IOEnv.SET_FILE)
@@ -59,10 +68,10 @@ Frame(kind, code) ==
      cache |-> FALSE, buf |-> <<>>, bind |-> TRUE, autos |-> <<>>, auto0 |-> FALSE]
 
 InitTask(sc, t) ==
-    [stack |-> <<[Frame("main", sc.tasks[t].prog) EXCEPT !.auto0 = sc.tasks[t].html]>>, ctr |-> 0, alias |-> NoMod,
+    [stack |-> <<[Frame("main", sc.tasks[t].prog) EXCEPT !.auto0 = sc.tasks[t].html]>>, ctr |-> 0, al |-> FALSE, alias |-> NoMod,
      out |-> <<>>, done |-> FALSE, started |-> FALSE]
 
-InitShared == [tcache |-> <<>>, next |-> 1, mcache |-> [o \in 1..MaxObj |-> NoMod]]
+InitShared(sc) == [tcache |-> <<>>, next |-> 1, mcache |-> [o \in 1..MaxObj |-> NoMod], glob |-> sc.g0]
 
 (* -- the environment's template cache (atomic: get_template never awaits) --- *)
 Hit(tc, name) == {i \in 1..Len(tc) : tc[i].name = name}
@@ -116,9 +125,13 @@ Run(sc, task, st, s) ==
     CASE o.op = "T" -> Run(sc, task, Emit(Adv(st), o.s), s)
       [] o.op = "G" -> [st |-> Adv(st), s |-> s]                       \* await: suspend here
       [] o.op = "Me" -> Run(sc, task, Emit(Adv(st), task.me), s)
-      [] o.op = "Reset" -> Run(sc, task, [Adv(st) EXCEPT !.ctr = 0], s)
-      [] o.op = "Inc" -> Run(sc, task, [Adv(st) EXCEPT !.ctr = @ + 1], s)
-      [] o.op = "Show" -> Run(sc, task, Emit(Adv(st), ToString(st.ctr)), s)
+      [] o.op = "Reset" -> Run(sc, task, [Adv(st) EXCEPT !.ctr = 0, !.al = FALSE], s)    \* a fresh object
+      [] o.op = "Copy" ->   \* the render's counter object is built from the shared object: a copy of it
+            IF AliasCopy THEN Run(sc, task, [Adv(st) EXCEPT !.al = TRUE], s)
+            ELSE Run(sc, task, [Adv(st) EXCEPT !.ctr = s.glob, !.al = FALSE], s)
+      [] o.op = "Inc" -> IF st.al THEN Run(sc, task, Adv(st), [s EXCEPT !.glob = @ + 1])
+                         ELSE Run(sc, task, [Adv(st) EXCEPT !.ctr = @ + 1], s)
+      [] o.op = "Show" -> Run(sc, task, Emit(Adv(st), ToString(IF st.al THEN s.glob ELSE st.ctr)), s)
       [] o.op = "AutoSet" -> Run(sc, task, SetTop(st, [f EXCEPT !.pc = @ + 1, !.autos = Append(@, o.b)]), s)
       [] o.op = "AutoEnd" -> Run(sc, task, SetTop(st, [f EXCEPT !.pc = @ + 1,
                                                               !.autos = SubSeq(@, 1, Len(@) - 1)]), s)
@@ -178,14 +191,14 @@ RunAlone(sc, task, st, s) ==
     ELSE LET r == Run(sc, task, st, s) IN RunAlone(sc, task, r.st, r.s)
 
 \* abstract layer: what task t of scenario sc renders when nobody else uses the environment
-AloneOut(sc, t) == RunAlone(sc, sc.tasks[t], InitTask(sc, t), InitShared)
+AloneOut(sc, t) == RunAlone(sc, sc.tasks[t], InitTask(sc, t), InitShared(sc))
 Alone(t) == alone[t]
 
 (* -- the scheduler ------------------------------------------------------------------- *)
 Init ==
     /\ sid \in 1..Len(Sets)
     /\ ts = [t \in 1..Len(Sets[sid].tasks) |-> InitTask(Sets[sid], t)]
-    /\ sh = InitShared
+    /\ sh = InitShared(Sets[sid])
     /\ sched = <<>>
     /\ alone = [t \in 1..Len(Sets[sid].tasks) |-> AloneOut(Sets[sid], t)]
 
@@ -224,6 +237,9 @@ C37_CacheContextFree ==
     \A o \in 1..MaxObj : ~sh.mcache[o].none => (sh.mcache[o].me = "" /\ sh.mcache[o].tg = "")
 C37_CacheComplete ==
     \A o \in 1..MaxObj : ~sh.mcache[o].none => sh.mcache[o].complete
+
+\* no render ever writes the object every render can reach
+C37_SharedObjectUntouched == sh.glob = Sc.g0
 
 \* the template cache respects its capacity and never holds a name twice
 C37_TemplateCacheBound ==
